@@ -32,6 +32,8 @@ def wrapper_list(run):
     return out, missing, names
 
 
+CTOR_SHIM = ('extern "C" __attribute__((noinline)) void vshim_Struct_ctor(void *mem, const std::string &name, double a, double b, double c, double alpha, double beta, double gamma, double volume, '
+             'const std::vector<xrlpp::Crystal::Atom> &atoms) { new (mem) xrlpp::Crystal::Struct(name, a, b, c, alpha, beta, gamma, volume, atoms); }')
 CXX_TY = {'int': 'int', 'double': 'double', 'str': 'const std::string &', 'pd': 'double *', 'S': 'xrlpp::Crystal::Struct *'}
 
 
@@ -86,7 +88,7 @@ def xrl_specs(wr):
 
 
 def shim_source(specs):
-    L = ['#include "xraylib++.h"', 'extern "C" __attribute__((noinline)) void vshim__process_error(xrl_error *e) { xrlpp::_process_error(e); }']
+    L = ['#include "xraylib++.h"', '#include <new>', CTOR_SHIM, 'extern "C" __attribute__((noinline)) void vshim__process_error(xrl_error *e) { xrlpp::_process_error(e); }']
     for sp in specs:
         ps = []; k = 0
         for t in sp['wtys']:
@@ -245,6 +247,61 @@ def b_wrapper(cl, mod, sp):
     cl.side_obligations('C18/%s/side' % sh, ev, functions=fn)
 
 
+def b_struct_ctor(cl, mod, NAT=1):
+    """the public Crystal::Struct constructor fills the C struct it owns with its own arguments (vector of NAT atoms; libstdc++ string /
+    vector members are opaque: their constructors are no-ops here, size() = NAT, operator[](i) = the i-th source atom)"""
+    ev = mk_eval(mod, [])
+    st = State(BoolVal(True)); st.mem[('thrown', ('flag',))] = BoolVal(False); st.mem[('thrown', ('type',))] = BitVecVal(9, 8); st.mem[('thrown', ('msg',))] = P.null()
+    def fresh_obj(tag):
+        def f(ev_, st_, args, ins): return P.to('%s:%d' % (tag, next(ev_.fresh)), (0,))
+        return f
+    for nm in list(mod.decls) + list(mod.funcs):
+        if re.fullmatch(r'_ZNSt7__cxx1112basic_stringIcSt11char_traitsIcESaIcEE(C[12]ERKS4_|D[12]Ev)', nm) or re.fullmatch(r'_ZNSt6vectorIN5xrlpp7Crystal4AtomESaIS2_EE(C[12]ERKS4_|D[12]Ev)', nm):
+            ev.hooks[nm] = lambda *a: None
+        elif re.fullmatch(r'_ZNKSt6vectorIN5xrlpp7Crystal4AtomESaIS2_EE4sizeEv', nm): ev.hooks[nm] = lambda ev_, st_, args, ins: BitVecVal(NAT, 64)
+        elif re.fullmatch(r'_ZNKSt6vectorIN5xrlpp7Crystal4AtomESaIS2_EEixEm', nm):
+            def at(ev_, st_, args, ins):
+                i = z3.simplify(args[1])
+                if not z3.is_bv_value(i): raise Exception('operator[] with a symbolic index')
+                return P.to('h:atom%d' % i.as_long(), (0,))
+            ev.hooks[nm] = at
+    ev.hooks['xrl_malloc'] = fresh_obj('m'); ev.hooks['xrl_strdup'] = fresh_obj('dup')
+    A = {k: Real(k) for k in ('a', 'b', 'c', 'alpha', 'beta', 'gamma', 'volume')}
+    args = [P.to('h:S', (0,)), P.to('h:name', (0,))] + [A[k] for k in ('a', 'b', 'c', 'alpha', 'beta', 'gamma', 'volume')] + [P.to('h:atoms', (0,))]
+    rv, after = ev.run('vshim_Struct_ctor', [P.to('h:S', (0,))] + args[1:], st)
+    fn = ['xrlpp::Crystal::Struct::Struct(name, a, b, c, alpha, beta, gamma, volume, atoms)']
+    sty = mod.types.get('class.xrlpp::Crystal::Struct')
+    idx = [i for i, f in enumerate(sty.fields) if f.kind == 'ptr' and f.to.kind == 'named' and f.to.name == 'struct.Crystal_Struct']
+    csp = after.mem.get(('h:S', (0, idx[0]))) if len(idx) == 1 else None
+    cst = csp.single() if isinstance(csp, P) else Ellipsis
+    ok = cst not in (Ellipsis, None) and cst[0].startswith('m:')
+    cl.add('C18/Struct_ctor/owns', ev, BoolVal(True), BoolVal(bool(ok)), 'the constructor allocates the C struct it wraps (xrl_malloc) and stores it in the object', functions=fn)
+    if not ok: return
+    cs = cst[0]
+    g = lambda k: after.mem.get((cs, (0, k)))
+    names = ['a', 'b', 'c', 'alpha', 'beta', 'gamma', 'volume']
+    conj = [g(1 + i) == A[k] if g(1 + i) is not None else BoolVal(False) for i, k in enumerate(names)]
+    cl.add('C18/Struct_ctor/cell', ev, BoolVal(True), And(*conj), 'the wrapped C struct gets a, b, c, alpha, beta, gamma and volume of the constructor (in this order)', functions=fn)
+    for i, k in enumerate(names):
+        v = after.mem.get(('h:S', (0, 1 + i)))
+        if v is None: conj.append(BoolVal(False))
+    pub = [after.mem.get(('h:S', (0, 1 + i))) == A[k] if after.mem.get(('h:S', (0, 1 + i))) is not None else BoolVal(False) for i, k in enumerate(names)]
+    cl.add('C18/Struct_ctor/public', ev, BoolVal(True), And(*pub), 'the public members a .. volume are the constructor arguments', functions=fn)
+    nm_ = g(0); nt = nm_.single() if isinstance(nm_, P) else Ellipsis
+    cl.add('C18/Struct_ctor/name', ev, BoolVal(True), BoolVal(nt not in (Ellipsis, None) and nt[0].startswith('dup:')), 'the C name is a copy (xrl_strdup) of the name argument', functions=fn)
+    na = g(8); ap = g(9); at_ = ap.single() if isinstance(ap, P) else Ellipsis
+    okat = at_ not in (Ellipsis, None) and at_[0].startswith('m:') and at_[0] != cs
+    conj = [na == NAT if na is not None else BoolVal(False), BoolVal(bool(okat))]
+    if okat:
+        for i in range(NAT):
+            for fidx in range(5):
+                src = ev.load(after, P.to('h:atom%d' % i, (0, fidx)), None) if False else after.mem.get(('h:atom%d' % i, (0, fidx)), ev.init_cache.get(('h:atom%d' % i, (0, fidx))))
+                dst = after.mem.get((at_[0], (i, fidx)))
+                conj.append(dst == src if (dst is not None and src is not None) else BoolVal(False))
+    cl.add('C18/Struct_ctor/atoms', ev, BoolVal(True), And(*conj), 'n_atom and every field of every atom are copied from the atoms argument into a fresh C array (%d atom)' % NAT, functions=fn)
+    cl.side_obligations('C18/Struct_ctor/side', ev, functions=fn)
+
+
 def check(run):
     wr, missing, names = wrapper_list(run)
     extra, skipped = extra_specs(frame.prototypes())
@@ -262,7 +319,7 @@ def check(run):
                         '(compoundData, compoundDataNIST, radioNuclideData, Crystal::Struct constructors/destructor/GetCrystal, Get*List, AtomicNumberToSymbol): libstdc++ container internals are outside the IR evaluator'
                         % (len(wr), len(extra), ', '.join(sorted(set(sp['label'] for sp in extra))))]
     run.extra['wrappers_in_header'] = len(names); run.extra['wrappers_encoded'] = len(specs); run.extra['wrappers_not_encoded'] = missing + skipped
-    groups = [('C18/process_error', lambda cl: b_process_error(cl, mod), ())]
+    groups = [('C18/process_error', lambda cl: b_process_error(cl, mod), ()), ('C18/Struct_ctor', lambda cl: b_struct_ctor(cl, mod), ())]
     chunk = 8
     for i in range(0, len(specs), chunk):
         part = specs[i:i + chunk]
